@@ -859,6 +859,8 @@ impl<'a> MetaStoreUpdate<'a> {
                 if chunk.role_position == ChunkRolePosition::SecondChunkMaster {
                     return Ok(());
                 }
+                // If this proxy was holding both masters, the master of the other half moves as well.
+                let both_moved = chunk.role_position == ChunkRolePosition::FirstChunkMaster;
                 chunk.role_position = ChunkRolePosition::SecondChunkMaster;
 
                 for migrating_slot_range in chunk.migrating_slots[0].iter_mut() {
@@ -872,11 +874,26 @@ impl<'a> MetaStoreUpdate<'a> {
                         migrating_slot_range.meta.dst_chunk_part,
                     ));
                 }
+                if both_moved {
+                    for migrating_slot_range in chunk.migrating_slots[1].iter_mut() {
+                        migrating_slot_range.meta.epoch = new_epoch;
+                        peer_position.insert((
+                            migrating_slot_range.meta.src_chunk_index,
+                            migrating_slot_range.meta.src_chunk_part,
+                        ));
+                        peer_position.insert((
+                            migrating_slot_range.meta.dst_chunk_index,
+                            migrating_slot_range.meta.dst_chunk_part,
+                        ));
+                    }
+                }
                 break;
             } else if chunk.proxy_addresses[1] == failed_proxy_address {
                 if chunk.role_position == ChunkRolePosition::FirstChunkMaster {
                     return Ok(());
                 }
+                // If this proxy was holding both masters, the master of the other half moves as well.
+                let both_moved = chunk.role_position == ChunkRolePosition::SecondChunkMaster;
                 chunk.role_position = ChunkRolePosition::FirstChunkMaster;
 
                 for migrating_slot_range in chunk.migrating_slots[1].iter_mut() {
@@ -889,6 +906,19 @@ impl<'a> MetaStoreUpdate<'a> {
                         migrating_slot_range.meta.dst_chunk_index,
                         migrating_slot_range.meta.dst_chunk_part,
                     ));
+                }
+                if both_moved {
+                    for migrating_slot_range in chunk.migrating_slots[0].iter_mut() {
+                        migrating_slot_range.meta.epoch = new_epoch;
+                        peer_position.insert((
+                            migrating_slot_range.meta.src_chunk_index,
+                            migrating_slot_range.meta.src_chunk_part,
+                        ));
+                        peer_position.insert((
+                            migrating_slot_range.meta.dst_chunk_index,
+                            migrating_slot_range.meta.dst_chunk_part,
+                        ));
+                    }
                 }
                 break;
             }
